@@ -234,7 +234,7 @@ def suppression_family(ctx: Ctx, spec: dict[str, Any]) -> None:
 
 def shards(tier: str, seed: int) -> list[dict[str, Any]]:
     n = 16
-    per = 60 if tier == "quick" else 1500
+    per = 60 if tier == "quick" else 350
     return [{"kind": "gen", "i": i, "n": n, "per": per} for i in range(n)] + [
         {"kind": "suppress", "i": i, "n": 2} for i in range(2)]
 
